@@ -29,7 +29,7 @@ class C14(Check):
         "distinct by digest of (text, unknown names)."
     )
     assumptions = ["shake_128/shake_256 are advertised but variable-length and outside the statement", "advertised set = hashlib.algorithms_guaranteed | {MD5, SHA-256, CRC-64-AVRO}"]
-    required_labels = ["text:empty", "text:non-ascii", "text:canonical-form", "unknown-name", "hashlib-accepts-unadvertised", "crc-leading-zero-byte", "text:len>=65536", "text:not-NFC"]
+    required_labels = ["text:empty", "text:non-ascii", "text:canonical-form", "unknown-name", "hashlib-accepts-unadvertised", "crc-leading-zero-byte", "text:len>=65536", "text:not-NFC", "crc:all-256-table-indices-visited"]
     quick = (1500, 1)
     thorough = (20000, 16)
 
@@ -114,6 +114,8 @@ class C14(Check):
         if unicodedata.normalize("NFC", text) != text:
             labels.add("text:not-NFC")
         want = canon.rabin_hex_le(raw, self.visited)
+        if len(self.visited) == 256:
+            labels.add("crc:all-256-table-indices-visited")
         if want.endswith("00"):
             labels.add("crc-leading-zero-byte")
         got = guard("fingerprint-crc", fingerprint, text, "CRC-64-AVRO")
